@@ -187,6 +187,10 @@ struct _receiver<Predecessor, Receiver, Func, FuncPolicy>::type {
           ? max_num_chunks
           : ((distance + min_chunk_size) / min_chunk_size);
       diff_t chunk_size = (distance + num_chunks) / num_chunks;
+      // Only use as many chunks as are needed to cover the range: for some
+      // lengths chunk_size * (num_chunks - 1) would exceed distance and the
+      // trailing chunks would begin past end_it.
+      num_chunks = distance / chunk_size + 1;
 
       // Found flag and vector that will be constructed in-place in the
       // operation state
